@@ -247,23 +247,6 @@ theorem step_commit_stamps (s s' : WState α) (e : Event α) (r : Nat) (h : step
         · simp only [Option.some.injEq, Prod.mk.injEq] at h; obtain ⟨rfl, _⟩ := h; exact ⟨rfl, rfl⟩
         · simp only [Option.some.injEq, Prod.mk.injEq] at h; obtain ⟨rfl, _⟩ := h; exact ⟨rfl, rfl⟩
 
-/-- has this writer object committed since it was created (`IndexWriter::new`, `rollback`) -/
-def sessStep (c : Bool) : Event α → Bool
-  | .commit _ => true
-  | .rollback => false
-  | _ => c
-
-/-- the hypothesis `bookRun` read off the sequence of calls: `delete_all_documents` only before
-the first commit of the writer object; no sub-steps -/
-def bookHist (c : Bool) : List (Event α) → Bool
-  | [] => true
-  | e :: es =>
-    (match e with
-      | .deleteAll => !c
-      | .stamp _ => false
-      | .publish _ => false
-      | _ => true) && bookHist (sessStep c e) es
-
 theorem bookRun_of_hist (s : WState α) (c : Bool) (es : List (Event α))
     (hc : c = false → s.metas.opstamp ≤ s.committedOpstamp) (h : bookHist c es = true) : bookRun s es := by
   induction es generalizing s c with
